@@ -56,7 +56,10 @@ def run(ctx):
     for f in sorted(cls, key=lambda g: g.id):
         t = tag(f)
         L = [x for x in q.loops(f) if f.N(x)['k'] in ('WhileStmt', 'ForStmt', 'DoStmt')]
-        ctx.require(len(L) == 1, 'C08.R1: check_limits has %d loops, expected 1' % len(L))
+        ctx.check(len(L) == 1, R1, 'check_limits[%s]:evicts-in-a-loop-until-there-is-room' % t,
+                  'check_limits has %d loops: eviction is not repeated until the limit / memory test passes (one eviction may not free enough)' % len(L), f.where)
+        if len(L) != 1:
+            continue
         L = L[0]
         cond = f.N(L)['cond']
         S = lin.Symb(f)
